@@ -428,3 +428,20 @@ func VerifC19_OnlyTheGeneratedCanaryServiceIsEverDeleted() {
 		}
 	}
 }
+
+// VerifC19_CanaryServiceNamesAreDistinct: the manager never checks who owns an existing canary Service — it patches,
+// adopts and deletes by the derived name — so two rollouts with different stable Services (same namespace) are only
+// isolated if the derived names differ: the derivation is injective, also for names as long as the API server admits
+// (63 characters) that differ only in their last characters.
+func VerifC19_CanaryServiceNamesAreDistinct() {
+	long := "orders-backend-payments-gateway-production-eu-central-1-" // 56 characters
+	names := []string{"svc", "svc-canary", "svc-canary-canary", long + "blue-01", long + "teal-01", long + "b", long}
+	a := names[verifrt.IntRange("a.stableService", 0, len(names)-1)]
+	b := names[verifrt.IntRange("b.stableService", 0, len(names)-1)]
+	verifrt.Assume(a != b)
+	ca, cb := getCanaryServiceName(a, false, false), getCanaryServiceName(b, false, false)
+	verifrt.Assert(ca != cb, "C19.canaryService.namesOfDifferentStableServicesDiffer")
+	verifrt.Assert(ca != a && cb != b, "C19.canaryService.isAnotherObjectThanTheStableService")
+	// end-to-end rollouts keep the Services they are given
+	verifrt.Assert(getCanaryServiceName(a, true, false) == a && getCanaryServiceName(a, false, true) == a, "C19.canaryService.userServicesAreTakenAsGiven")
+}
